@@ -39,6 +39,15 @@ def models():
                 p.add_(0.2 * torch.randn(p.shape, generator=g))
         return m
 
+    def conv_with_shuffle(channels):
+        # the channel permutation is drawn in the constructor: draw until it actually moves channels (one draw in
+        # 24 is the identity, under which the order of un-mixing and un-permuting cannot be seen)
+        for _ in range(50):
+            m = TR.OneByOneConvolution(channels, identity_init=False)
+            if m.permutation._permutation.tolist() != list(range(channels)):
+                return m
+        return m
+
     def warmed(m, d):
         # running statistics as training leaves them: two training-mode passes over non-centred data
         m.train()
@@ -63,7 +72,7 @@ def models():
         "MaskedAutoregressiveFlow": (lambda: perturb(FL.MaskedAutoregressiveFlow(3, 8, num_layers=2, num_blocks_per_layer=1)), (3,), "none", 0, False),
         "MaskedAutoregressiveFlow/random-permutations": (lambda: perturb(FL.MaskedAutoregressiveFlow(4, 8, num_layers=2, num_blocks_per_layer=1, use_random_permutations=True)), (4,), "none", 0, False),
         "Flow(Logit T=1.5 + LU|StandardNormal)": (lambda: perturb(FL.base.Flow(TR.CompositeTransform([TR.Logit(temperature=1.5), TR.LULinear(3, identity_init=False)]), D.StandardNormal([3])), 9), (3,), "none", 0, False),
-        "Flow(1x1 convolution|StandardNormal [4,1,2])": (lambda: perturb(FL.base.Flow(TR.OneByOneConvolution(4, identity_init=False), D.StandardNormal([4, 1, 2])), 11), (4, 1, 2), "none", 0, False),
+        "Flow(1x1 convolution|StandardNormal [4,1,2])": (lambda: perturb(FL.base.Flow(conv_with_shuffle(4), D.StandardNormal([4, 1, 2])), 11), (4, 1, 2), "none", 0, False),
         # one gate value per context row, broadcast over the features (the two directions must count it alike)
         "Flow(GLU row gate + affine|StandardNormal)": (lambda: FL.base.Flow(TR.CompositeTransform([TR.GatedLinearUnit(), TR.PointwiseAffineTransform(shift=torch.tensor([0.3, -0.2, 0.1]), scale=torch.tensor([1.5, 0.7, 2.0]))]), D.StandardNormal([3])), (3,), "required", 1, False),
         "Flow(GLU + embedding to one gate|CondNormal)": (lambda: perturb(FL.base.Flow(TR.GatedLinearUnit(), D.ConditionalDiagonalNormal([3], context_encoder=torch.nn.Linear(1, 6)), embedding_net=torch.nn.Linear(4, 1)), 17), (3,), "required", 4, False),
